@@ -314,6 +314,7 @@ def partsOf (opn : String) (exp got : String) : List (String × String × String
   | "create" | "delete" | "find" | "list" => [("storage", exp, got)]
   | "nvcheck" => [("phantom", exp, (cut got " of ").1)]
   | "enter" | "leave" => [("session", exp, got)]
+  | "fin" => [("balance", exp, got)]
   | _ => [("misc", exp, got)]
 
 /-- one transcript line; returns the differences found as (class, message) -/
